@@ -120,8 +120,9 @@ func init() {
 					cases = append(cases, c04Case{Type: tn(t), C: C, P: 1500, S: 0, L: 0, N: C*1500 + 300, Sparse: true})
 					cases = append(cases, c04Case{Type: tn(t), C: C, P: 1500, S: 700, L: 100, N: C*700 + 300, Sparse: true})
 				}
-				cases = append(cases, c04Case{Type: tn(t), C: 9, P: 8, S: 1, L: 1, N: 9*6 + 40})
-				cases = append(cases, c04Case{Type: tn(t), C: 65, P: 3, S: 0, L: 1, N: 65*2 + 40})
+				for C := 5; C <= 70; C++ { // every channel count, short buffers
+					cases = append(cases, c04Case{Type: tn(t), C: C, P: 3, S: 1, L: 0, N: 2*C + 5})
+				}
 			}
 			var calls int64
 			for _, cs := range cases {
@@ -141,7 +142,7 @@ func init() {
 			c.Set("evaluations", calls)
 			c.Sample(cases[57])
 			c.Sample(cases[len(cases)-1])
-			c.Set("rule", fmt.Sprintf("13 element types x C in 1..4 x storage of P in 0..4 frames x window start S x initial length L (windows of a larger buffer, and direct Alloc(C,L,P)); each history is spare capacity + %d AppendSample calls, checked after every call against the views model (state = Len; transition = one call); non-trivial = has spare capacity; plus storages of 16 and 100 frames for 4 element types, 1500-frame storages (thousands of calls, full comparison every 97th call) and 9- and 65-channel buffers for 3 types", extra))
+			c.Set("rule", fmt.Sprintf("13 element types x C in 1..4 x storage of P in 0..4 frames x window start S x initial length L (windows of a larger buffer, and direct Alloc(C,L,P)); each history is spare capacity + %d AppendSample calls, checked after every call against the views model (state = Len; transition = one call); non-trivial = has spare capacity; plus storages of 16 and 100 frames for 4 element types, 1500-frame storages (thousands of calls, full comparison every 97th call) and every channel count 5..70 on short buffers for 3 types", extra))
 			c.Assume("storage identity is observed by aliasing (a full-capacity view taken before the first call and the root buffer), not by address")
 		},
 		RunCase: func(c *core.Ctx, raw json.RawMessage) []F { return c04Run(decode[c04Case](raw)) },
